@@ -353,6 +353,30 @@ theorem generated_option_overrides_in_every_key :
     ∀ (c : CacheId) (o : CallOpt), optRead c o = true → optInKey c o = true := by
   intro c o; cases c <;> cases o <;> decide
 
+/-- which inputs of the identifier normalisation the two caches that store its results read / key on -/
+def normRead : CacheId → NormInput → Bool
+  | .names, i => nameHasInput nameCacheReads i
+  | .tables, i => tableHasInput tableCacheReads i
+  | _, _ => false
+
+def normInKey : CacheId → NormInput → Bool
+  | .names, i => nameHasInput nameCacheKey i
+  | .tables, i => tableHasInput tableCacheKey i
+  | _, _ => false
+
+/-- **every input of the identifier normalisation — spelling, quoting, dialect, `normalize` AND the identifier's
+    role (`is_table`) — is part of the key of every cache that stores its result**: complete decision over
+    4 caches × 5 inputs with the regenerated layouts (the seeded C10-7 / C18-1 "key without is_table" fails here) -/
+theorem generated_normalisation_inputs_in_every_key :
+    ∀ (c : CacheId) (i : NormInput), normRead c i = true → normInKey c i = true := by
+  intro c i; cases c <;> cases i <;> decide
+
+/-- the role really is an input: `normalize_name` stores `is_table` in `identifier.meta` before calling
+    `Dialect.normalize_identifier` (ast fact), so `_normalize_name` must pass it on and key on it -/
+theorem generated_role_is_read_and_keyed :
+    roleReachesNormalizeIdentifier = true →
+      nameCacheReads.contains NField.isTable = true ∧ nameCacheKey.contains NField.isTable = true := by decide
+
 end Memo
 
 /-! ## Expression-keyed caches: the keys' cached hashes must be fresh -/
@@ -508,6 +532,19 @@ theorem supported_args_cache_correct {C : Core} {d : Nat} (h : CShape C d) :
 
 def L0 : Layouts := ⟨[.name, .quoted, .dialect, .isTable, .normalize], [.table, .dialect, .normalize], [.tyStr, .dialect], .all⟩
 def core2 : Core := coreOfMapping (.node [("d", .node [("t", .leaf [("a", "INT")])])])
+
+/-- **the role-less key on a whole history** (seeded C10-7): BigQuery, `MappingSchema({"ds": {"Tbl": {"Tbl": "int",
+    "x": "int"}}})` then `column_names("ds.Tbl")`: with `is_table` in the key the column is folded to `tbl`; without
+    it the constructor replays the table key's cached spelling `Tbl` -/
+theorem role_less_key_history_witness :
+    let raw : Tree := .node [("ds", .node [("Tbl", .leaf [("Tbl", "int"), ("x", "int")])])]
+    let E : Env := ⟨asciiFns, fun _ t => t, bq, true, fun _ => none⟩
+    let q : FOp := .columnNames bq true ⟨[⟨"ds", false⟩, ⟨"Tbl", false⟩], true⟩ false
+    let Lbad : Layouts := ⟨[.name, .quoted, .dialect, .normalize], [.table, .dialect, .normalize], [.tyStr, .dialect], .all⟩
+    (match fInit E L0 raw true with | .ok F => (fStep E L0 F q).2 | .error e => .err e) = .names ["tbl", "x"] ∧
+    (match fInit E Lbad raw true with | .ok F => (fStep E Lbad F q).2 | .error e => .err e) = .names ["Tbl", "x"] := by
+  decide +kernel
+
 
 example : CShape core2 2 := (coreOfMapping_spec 1 _ ⟨_, rfl, by simp, by simp, by
   intro kv hkv; simp at hkv; subst hkv; exact ⟨_, rfl, by simp, by simp, by
